@@ -33,8 +33,8 @@ def states(tier, seed):
             continue
         st.append(dict(part="aero", pf=pf, nx=nx, ny=ny, alpha=al, beta=be, rot=rot, two=two, fam=fam))
     # (a2) struct alone
-    for model, pf, ny, relief in itertools.product(["tube", "wingbox"], ["swept", "twdi"], nys, [False, True]):
-        st.append(dict(part="struct", model=model, pf=pf, ny=ny, relief=relief, fam=fam))
+    for model, pf, ny, relief, pm in itertools.product(["tube", "wingbox"], ["swept", "twdi"], nys, [False, True], ["none", "left_inboard", "right_outboard", "both"]):
+        st.append(dict(part="struct", model=model, pf=pf, ny=ny, relief=relief, pm=pm, fam=fam))
     # (a3) aerostruct, asymmetric
     for model, pf, ny, be, pmass in itertools.product(["tube", "wingbox"], ["swept", "twdi"], [5] if tier == "quick" else [5, 7], [0.0, 4.0], [False, True]):
         st.append(dict(part="as", model=model, pf=pf, ny=ny, beta=be, pmass=pmass, fam=fam))
@@ -142,16 +142,31 @@ def part_struct(s):
     loads[:, :3] = gen.gen((ny, 3), 3, -2e3, 4e3, fam)
     loads[:, 3:] = gen.gen((ny, 3), 4, -5e2, 5e2, fam)
 
-    def run(mesh, L):
-        surf = builders.struct_surface("wing", mesh, False, s["model"], struct_weight_relief=s["relief"], exact_failure_constraint=True)
-        p = builders.build_struct(surf, L, load_factor=1.5)
+    # point masses / engines: inboard on the left, in the outermost bay on the right, or both
+    ytip = 0.5 * 10.0
+    locs = {"none": [], "left_inboard": [[1.1, -1.3, -0.35]], "right_outboard": [[0.9, 0.93 * ytip, -0.2]], "both": [[1.1, -1.3, -0.35], [0.9, 0.93 * ytip, -0.2]]}[s.get("pm", "none")]
+
+    def run(mesh, L, mirror):
+        kw = dict(struct_weight_relief=s["relief"], exact_failure_constraint=True)
+        pm = None
+        if locs:
+            kw["n_point_masses"] = len(locs)
+            pl = [[x, -y if mirror else y, z] for x, y, z in locs]
+            pm = dict(point_masses=[600.0, 450.0][: len(locs)], engine_thrusts=[5.0e3, 3.0e3][: len(locs)], point_mass_locations=pl)
+        surf = builders.struct_surface("wing", mesh, False, s["model"], **kw)
+        p = builders.build_struct(surf, L, load_factor=1.5, pm=pm)
         p.run_model()
         return p
 
-    p1 = run(m, loads)
-    p2 = run(gen.mirror_mesh(m), flipD(loads))
+    p1 = run(m, loads, False)
+    p2 = run(gen.mirror_mesh(m), flipD(loads), True)
     viol, val = [], 0
     wh = dict(part="struct", model=s["model"])
+    if locs:
+        for nm in ("loads_from_point_masses", "loads_from_thrusts"):
+            val += 1
+            L1 = p1["struct_states." + nm]
+            _viol(viol, "reflection", nm, p2["struct_states." + nm], flipD(L1), np.abs(L1).max(), TOL, wh)
     d1, d2 = p1["disp"], p2["disp"]
     val += 3
     _viol(viol, "reflection", "disp", d2, flipD(d1), np.abs(d1).max(), TOL, wh)
